@@ -4,6 +4,7 @@ from __future__ import annotations
 import datetime
 import hashlib
 import io
+import random
 import traceback
 
 from .. import common, gen, recref, shard
@@ -53,7 +54,7 @@ def gen_batch(rng, thorough: bool, max_records: int) -> tuple[dict, dict]:  # no
         offs = [base] + [base + rng.randint(-(2**31), 2**31 - 1) for _ in range(n - 1)]
     offs = [min(max(o, -(2**63)), 2**63 - 1) for o in offs]
     offs = [o if -(2**31) <= o - offs[0] <= 2**31 - 1 else offs[0] for o in offs]
-    tkind = rng.choice(("near_epoch", "modern", "year9999", "equal", "out_of_order", "whole_seconds", "boundary"))
+    tkind = rng.choice(("near_epoch", "modern", "year9999", "equal", "out_of_order", "whole_seconds", "boundary", "dst_fold"))
     if tkind == "near_epoch":
         ts = [rng.randint(0, 5000) for _ in range(n)]
     elif tkind == "modern":
@@ -63,6 +64,11 @@ def gen_batch(rng, thorough: bool, max_records: int) -> tuple[dict, dict]:  # no
         ts = [gen.DT_MAX - rng.randint(0, 10**6) for _ in range(n)]
     elif tkind == "equal":
         ts = [rng.choice((0, 1, 999, 1001, 1503229838908, gen.DT_MAX))] * n
+    elif tkind == "dst_fold":
+        # instants around the end of daylight saving time 2021 in Europe (01:00 UTC) and the US (06:00 UTC): expressed in those zones the
+        # wall-clock times repeat, which must not matter
+        t0 = rng.choice((1635642000000, 1636264800000))
+        ts = [t0 + rng.randint(-3600_000, 3600_000) for _ in range(n)]
     elif tkind == "boundary":
         # timestamp deltas at the byte-length boundaries of the zig-zag varlong
         t0 = 1 << 45
@@ -97,13 +103,40 @@ def gen_batch(rng, thorough: bool, max_records: int) -> tuple[dict, dict]:  # no
     return b, cell
 
 
-def to_kio_records(b: dict) -> tuple:
+_ZONES: list | None = None
+
+
+def _zones() -> list:
+    """Time zones a record timestamp may be expressed in (the instant is what goes on the wire)."""
+    global _ZONES
+    if _ZONES is None:
+        _ZONES = [datetime.timezone.utc, datetime.timezone(datetime.timedelta(hours=5, minutes=30)), datetime.timezone(datetime.timedelta(hours=-11))]
+        try:
+            import zoneinfo
+
+            for z in ("Europe/Berlin", "America/New_York", "Australia/Lord_Howe"):
+                try:
+                    _ZONES.append(zoneinfo.ZoneInfo(z))
+                except Exception:  # noqa: BLE001
+                    pass
+        except ImportError:
+            pass
+    return _ZONES
+
+
+def to_kio_records(b: dict, tz_choice=None) -> tuple:  # noqa: ANN001
     from kio.records.schema import Record, RecordHeader
 
     out = []
-    for rec, off, ts in zip(b["records"], b["_abs"]["offsets"], b["_abs"]["timestamps"]):
-        out.append(Record(attributes=rec["attributes"], timestamp=EPOCH + ts * MS, offset=off, key=rec["key"], value=rec["value"],
-                          headers=tuple(RecordHeader(key=k, value=v) for k, v in rec["headers"])))
+    for k, (rec, off, ts) in enumerate(zip(b["records"], b["_abs"]["offsets"], b["_abs"]["timestamps"])):
+        when = EPOCH + ts * MS
+        if tz_choice is not None:
+            try:
+                when = when.astimezone(tz_choice(k))
+            except OverflowError:
+                pass
+        out.append(Record(attributes=rec["attributes"], timestamp=when, offset=off, key=rec["key"], value=rec["value"],
+                          headers=tuple(RecordHeader(key=k_, value=v) for k_, v in rec["headers"])))
     return tuple(out)
 
 
@@ -134,8 +167,11 @@ def c17_worker(res: Result, i: int, n: int) -> None:
         if k % 4 == 1:
             _failed_write_noise(res, rng, b)
         try:
+            zones = _zones()
+            same_zone = rng.choice(zones)
+            tz_choice = None if k % 3 == 0 else (lambda j, z=same_zone: z) if k % 3 == 1 else (lambda j, r=random.Random(k): r.choice(zones))
             new = NewRecordBatch(producer_id=b["producer_id"], producer_epoch=b["producer_epoch"], partition_leader_epoch=b["partition_leader_epoch"],
-                                 base_sequence=b["base_sequence"], records=to_kio_records(b), attributes=b["attributes"])
+                                 base_sequence=b["base_sequence"], records=to_kio_records(b, tz_choice), attributes=b["attributes"])
             buf = io.BytesIO()
             (write_new_batch if k % 3 else write_batch)(buf, new)
             got = buf.getvalue()
